@@ -315,6 +315,25 @@ func main() {
 							effs = append(effs, fmt.Sprintf("ECallUnknown %q", b.Name()+" into "+why+" at "+pos(x.Pos())))
 						}
 					}
+					// the ADDRESS of a package-level variable handed to a callee (errors.As(err, &pkgVar), json.Unmarshal
+					// into a global ...): the callee writes through it, possibly by reflection
+					for _, a := range x.Call.Args {
+						v := a
+						for {
+							if mi, ok := v.(*ssa.MakeInterface); ok {
+								v = mi.X
+								continue
+							}
+							if ct, ok := v.(*ssa.ChangeType); ok {
+								v = ct.X
+								continue
+							}
+							break
+						}
+						if gl, ok := v.(*ssa.Global); ok {
+							effs = append(effs, fmt.Sprintf("EStoreShared %q", "address of package-level variable "+gl.Name()+" passed to a call at "+pos(x.Pos())))
+						}
+					}
 					if c := x.Call.StaticCallee(); c != nil && c.Pkg != nil && len(x.Call.Args) > 0 {
 						// library functions that rearrange their argument in place
 						full := c.Pkg.Pkg.Path() + "." + c.Name()
